@@ -70,6 +70,18 @@ func init() {
 	addRules("C19", "R-SIZEPAIR")
 	addRules("C20", "R-TXPAIR")
 	addRules("C21", "R-RAWREAD")
+	addRules("C20", "R-ALLOC-BOUND")
+	reg("R-ALLOC-BOUND", "No make() in the module takes a length or capacity that derives (arithmetic, conversions, phis, module calls and their results) from an integer parameter of an exported Tx method or from an integer the appliers decode from a stored record, unless an upper clamp against an untainted bound intervenes.", ruleAllocBound)
+	addRules("C15", "R-MERGE-EVERY", "R-MERGE-NEWER")
+	addRules("C16", "R-MERGE-EVERY")
+	reg("R-MERGE-EVERY", "In DB.Merge no path leads from opening one listed segment to opening the next without passing os.Remove: every listed segment is rewritten and removed in ascending order, none is skipped.", ruleMergeEvery)
+	reg("R-MERGE-NEWER", "The index lookup whose result Merge compares with the scan position (to drop superseded records) contains no tombstone or expiry test in its cone: a newest record that is deleted or expired still supersedes the older ones.", ruleMergeNewer)
+	addRules("C04", "R-RECKEY")
+	addRules("C13", "R-RECKEY")
+	reg("R-RECKEY", "Every comparison or map key that matches the elements of a record collection ([]*Entry / []*Record: pending writes, merge rewrite set, scan results) by their key also involves the element's bucket; named exception processEntriesScanOnDisk (input already restricted to one bucket).", ruleRecKey)
+	addRules("C09", "R-RWBOUNDS")
+	addRules("C19", "R-RWBOUNDS")
+	reg("R-RWBOUNDS", "No RWManager.ReadAt implementation that returns one of the module's own errors decides it from a comparison combining the offset with the length of the caller's buffer: a read that starts inside the segment and is cut short by its end is a short read / io.EOF (as FileIO reports it), which is what the segment scan loops tolerate.", ruleRWBounds)
 	reg("R-RAWREAD", "Every call of RWManager.ReadAt outside the RWManager implementations sits in a function whose every possibly non-nil record return is dominated by the CRC comparison: segment bytes reach callers only through the verifying decoder.", ruleRawRead)
 	addRules("C17", "R-MERGE-COMMITTED")
 	reg("R-SIZEPAIR", "DataFile.writeOff (where Commit writes) and DataFile.ActualSize (what Commit tests to rotate) move together: every advance of one stands next to the same advance of the other on the same object, and when Open restores DB.ActiveFile.writeOff from the scan of the active segment it restores DB.ActiveFile.ActualSize (on the database's active file, not a temporary handle) with the running scan offset.", ruleSizePair)
